@@ -507,8 +507,46 @@ fn pw_number_edges(cx: &mut Ctx, idx: &mut u64) {
     }
 }
 
+/// well-formed strings in which one field is replaced by a long run of multi-byte characters, shifted by 0..3 ASCII bytes:
+/// code that cuts, indexes or echoes the untrusted text at a byte position (error messages, length caps) meets a position
+/// inside a character for most shifts
+fn pw_long_multibyte_fields(cx: &mut Ctx, idx: &mut u64) {
+    let fields = ["alg", "v", "m", "t", "p", "salt", "hash", "whole"];
+    let chars = ['\u{e9}', '\u{20ac}', '\u{1f600}'];
+    let lens: &[usize] = if cx.tier == Tier::Tiny { &[70] } else { &[20, 70, 130, 300, 1100, 70_000] };
+    for (fi, field) in fields.iter().enumerate() {
+        for (ci, ch) in chars.iter().enumerate() {
+            for shift in 0..4usize {
+                for &n in lens {
+                    *idx += 1;
+                    if !cx.mine(*idx) {
+                        continue;
+                    }
+                    let run: String = "x".repeat(shift) + &ch.to_string().repeat(n);
+                    let (mut alg, mut v, mut m, mut t, mut p, mut salt, mut hash) = ("argon2id".to_string(), "19".to_string(), "64".to_string(), "2".to_string(), "1".to_string(), "c29tZXNhbHRzb21lc2FsdA".to_string(), "AAAAAAAAAAAAAAAAAAAAAAAAAAAAAAAAAAAAAAAAAAA".to_string());
+                    match fi {
+                        0 => alg = format!("argon2{}", run),
+                        1 => v = run.clone(),
+                        2 => m = run.clone(),
+                        3 => t = run.clone(),
+                        4 => p = run.clone(),
+                        5 => salt = run.clone(),
+                        6 => hash = run.clone(),
+                        _ => {}
+                    }
+                    let s = if fi == 7 { run.clone() } else { format!("${}$v={}$m={},t={},p={}${}${}", alg, v, m, t, p, salt, hash) };
+                    cx.key(&format!("pw_long_multibyte {} {} {} {}", field, ci, shift, n));
+                    pw_case(cx, &s, "long_multibyte_field", false);
+                    cx.cover("pw_long_multibyte_field", field);
+                }
+            }
+        }
+    }
+}
+
 fn pw_strings(cx: &mut Ctx, idx: &mut u64) {
     pw_number_edges(cx, idx);
+    pw_long_multibyte_fields(cx, idx);
     let n = cx.tier.pick(40usize, 6000, 200_000);
     let hash_ok = cx.tier != Tier::Tiny;
     let algs = ["argon2i", "argon2id", "argon2d", "argon2x", "argon2", "", "ARGON2ID", "argon2idd"];
@@ -653,6 +691,49 @@ fn pw_strings(cx: &mut Ctx, idx: &mut u64) {
     }
 }
 
+/// byte strings built *for the keys of this run* so that the Poly1305 accumulator reaches an edge value while the entry
+/// point authenticates them (the value p + v that the final subtraction must handle, limb-edge values for the carry
+/// chains): for a fixed key these strings exist among "every byte string", random generation finds them with
+/// probability 2^-128. The tag in front is arbitrary: the edge is reached while computing the authenticator.
+fn poly_edge_inputs(cx: &mut Ctx, list: &[Ep], k: &K, idx: &mut u64) {
+    let nsel = cx.tier.pick(13usize, 26, 130);
+    // (key half r, which entry points, does the input start with a 16-byte tag the MAC does not cover?)
+    let mut groups: Vec<(Vec<u8>, &str, Vec<&Ep>, bool)> = Vec::new();
+    let mac_eps: Vec<&Ep> = list.iter().filter(|e| e.name.contains("onetimeauth") || e.name.contains("incremental MAC")).collect();
+    groups.push((k.key[..16].to_vec(), "onetimeauth(key of the run)", mac_eps, false));
+    #[cfg(feature = "sodium")]
+    {
+        let ks_sb = crate::sodium::stream_xsalsa20(32, &k.nonce, &k.key);
+        let ks_bx = crate::sodium::stream_xsalsa20(32, &k.nonce, &k.precalc);
+        let sb_tagged: Vec<&Ep> = list.iter().filter(|e| (e.name.contains("secretbox") || e.name.contains("SecretBox")) && !e.name.contains("detached")).collect();
+        let sb_body: Vec<&Ep> = list.iter().filter(|e| e.name.contains("secretbox") && e.name.contains("detached")).collect();
+        let bx_tagged: Vec<&Ep> = list.iter().filter(|e| (e.name.contains("crypto_box_open_easy") || e.name.starts_with("DryocBox::from_bytes") || e.name.starts_with("DryocBox<Heap")) && !e.name.contains("seal_open")).collect();
+        let bx_body: Vec<&Ep> = list.iter().filter(|e| e.name.contains("crypto_box_open_detached")).collect();
+        groups.push((ks_sb[..16].to_vec(), "secretbox(key, nonce of the run)", sb_tagged, true));
+        groups.push((ks_sb[..16].to_vec(), "secretbox detached(key, nonce of the run)", sb_body, false));
+        groups.push((ks_bx[..16].to_vec(), "box(keys, nonce of the run)", bx_tagged, true));
+        groups.push((ks_bx[..16].to_vec(), "box detached(keys, nonce of the run)", bx_body, false));
+    }
+    for (r, gname, eps_, tagged) in groups {
+        for sel in 0..nsel {
+            *idx += 1;
+            if !cx.mine(*idx) {
+                continue;
+            }
+            let mut rng = cx.rng.fork(*idx);
+            let len = 16 * (1 + sel % 5);
+            let Some((body, target)) = super::polyedge::craft_ciphertext(&r, len, sel, &mut rng) else { continue };
+            let mut input = if tagged { rng.bytes(16) } else { Vec::new() };
+            input.extend_from_slice(&body);
+            cx.key(&format!("poly_edge {} {}", gname, sel));
+            for ep in &eps_ {
+                total(cx, ep.name, &input, "poly1305_edge_for_run_keys", k, ep.call, 64 * input.len() + (1 << 20));
+                cx.cover("poly1305_edge_inputs", &format!("{}|{}", gname, target));
+            }
+        }
+    }
+}
+
 pub fn run(cx: &mut Ctx) {
     let only_ni = cx.opt("nightly_forms_only").is_some();
     let list: Vec<Ep> = eps().into_iter().filter(|e| !only_ni || e.name.contains("Heap")).collect();
@@ -720,6 +801,7 @@ pub fn run(cx: &mut Ctx) {
         cx.sample(json!({"family":"length_sweep","entry":"crypto_secretstream_xchacha20poly1305_pull","lengths":"0..=98","classes":classes}));
     }
 
+    poly_edge_inputs(cx, &list, &k, &mut idx);
     if only_ni {
         return;
     }
